@@ -18,6 +18,23 @@ impl PacketHeader {
     pub fn packet_length(&self) -> (r: PacketLength) ensures r == self.length() { unimplemented!() }
     #[verifier::external_body]
     pub fn tag(&self) -> (r: Tag) ensures r == self.ptag() { unimplemented!() }
+
+    /// the header as RFC 9580 4.2 sees it (lemmas/framing.rs `Hdr`; defined on the real enum in U04 / lemmas/header_view.rs)
+    pub uninterp spec fn hv(&self) -> Hdr;
+    //@trusted T4 the accessors agree with the RFC view: packet_length() is the length stored in the header, tag() is Tag::from(the Packet Type ID bits) and lemmas/tags.rs tag_id inverts Tag::from on 0..=63 (src/packet/header.rs, src/types/packet.rs `impl From<u8> for Tag`: one match arm per ID)
+    #[verifier::external_body]
+    pub proof fn axiom_accessors(&self)
+        ensures hdr_len(self.hv()) == self.length(), hdr_tag(self.hv()) == tag_id(self.ptag())
+    {}
+    //@trusted T4 PacketHeader::try_from_reader at R := &mut R0: Ok(h) means h is the RFC 9580 4.2 decoding dec_hdr of the stream, a well-formed header, and exactly its 1..6 octets were consumed (proved in U04 as try_from_reader_ref); on Err nothing is known
+    #[verifier::external_body]
+    pub fn try_from_reader<R: io::BufRead>(r: &mut R) -> (res: io::Result<PacketHeader>)
+        ensures match res {
+            Ok(h) => dec_hdr(old(r).rest()) == Some((h.hv(), dec_hdr(old(r).rest()).unwrap().1))
+                && (*final(r)).rest() == old(r).rest().skip(dec_hdr(old(r).rest()).unwrap().1 as int)
+                && hdr_ok(h.hv()),
+            Err(_) => true }
+    { unimplemented!() }
 }
 
 //@trusted T2 Packet (src/packet/packet_sum.rs) is an opaque value here
